@@ -300,7 +300,7 @@ func Check(o Options) int {
 		if o.Tier == "thorough" {
 			ex.MaxSamples = 48
 			ex.TimeoutMs = 60000
-			ex.MaxSeconds = 3 * 3600
+			ex.MaxSeconds = 1800 // a thorough harness that does not finish in 30 minutes is reported inconclusive (its bounds are to be reduced)
 			ex.CrossCheckMax = 2000
 		}
 		if o.Trace {
